@@ -1,4 +1,5 @@
 """C46 — distfile cleaning never deletes a distfile that must be kept."""
+import io
 import math
 import os
 import shutil
@@ -23,12 +24,11 @@ OBLIGATIONS = [
     "Pkgcore.C46.unreadable_distfiles_never_read",
 ]
 TRUSTED = [
-    "which packages the target / exclusion restrictions match and which files the file-name patterns guessed from the targeted packages select are "
-    "parameters of the model; the run instantiates them from the real code (restriction.match on the real packages; one extra run of the real "
-    "_dist_validate_args with every exclusion switched off)",
-    "os.stat / os.remove / listdir_files (a real scratch distdir is used); argparse wiring of the options (the bound parse functions "
-    "_setup_shared_opts, _setup_file_opts, _setup_restrictions, _dist_validate_args and _remove are called on a hand-made namespace, a pkgcore domain is not "
-    "configured)",
+    "which packages a single target / exclusion pattern matches (parserestrict.parse_match(pattern).match on the real packages, one pattern at a time) and "
+    "which files the file-name pattern guessed from ONE targeted package name selects (Python re, the harness' own per-name reference) are parameters of the "
+    "model; how the real code combines them (restrictions built by the option parsing, one alternation over all targeted names) is compared with that on every run",
+    "os.stat / os.remove / listdir_files (a real scratch distdir is used); the pkgcore configuration: the real pclean argument parser runs on a configuration "
+    "whose default domain is a stand-in object carrying distdir, source_repos and all_installed_repos",
 ]
 ASSUMPTIONS = [
     "every os.remove succeeds (the distdir is writable); installed packages are given by their distfiles attribute",
@@ -42,7 +42,36 @@ RULE = ("real scratch ebuild repositories (6-9 packages over related names foo /
         "and ages, and random option combinations: targets (names, globs, versioned atoms, targets matching no package, targets excluded again), --installed/--exists/--fetch-restricted, exclusion patterns, "
         "--modified, --size; non-trivial = at least one file removed while at least one selected file is kept because it is needed")
 
-NAMES = ["foo", "foo-bar", "libfoo", "baz", "qux"]
+NAMES = ["foo", "foo-bar", "libfoo", "baz", "qux", "bazaar"]
+# files of no package at all; several merely START with the letters of a package name (no name boundary after them)
+STRANGERS = ["unrelated.zip", "notes.txt", "Foo-3.TAR.GZ", "foo_1.tar.gz", "foobar-1.tar.gz", "bazooka-2.zip", "quxotic-1.1.tar.xz", "libfoo2-2.tar.gz"]
+# the file-name patterns pclean guesses from ONE targeted package name (pclean builds one alternation out of all of them)
+PKG_TAIL = r"(\W\w+)+([\W?(0-9)+])*(\W\w+)*(\.\w+)*"
+EXTRA_TAIL = r"([\W?(0-9)+])+(\W\w+)*(\.\w+)+"
+
+
+def ref_selected(targeted, present):
+    """reference for "selected by the cleaning targets", one targeted package name at a time: a file is selected when, for SOME single targeted
+    name, it matches that name's pattern `name<sep>word…` (or the pattern of an alternate upstream prefix learned from that package's own
+    distfiles).  `targeted`: [(package name, distfiles)] in repository order."""
+    import re
+    names, extra = [], {}
+    for name, files in targeted:
+        pn = r"\W".join(re.split(r"\W", name))
+        if pn not in names:
+            names.append(pn)
+        mine = extra.setdefault(name, [])
+        for f in sorted(set(files)):
+            if re.match(f"({pn}){PKG_TAIL}", f, re.IGNORECASE) or any(re.match(f"({x}){EXTRA_TAIL}", f) for x in mine):
+                continue
+            pieces = re.split(EXTRA_TAIL, f)
+            if pieces[-1] == "":
+                pieces.pop()
+            if len(pieces) > 1 and pieces[0] not in mine:
+                mine.append(pieces[0])
+    pats = [f"({pn}){PKG_TAIL}" for pn in names] + [f"({x}){EXTRA_TAIL}" for v in extra.values() for x in v]
+    return sorted(f for f in present if any(re.match(pat, f) for pat in pats))
+
 EXT = [".tar.gz", ".tar.xz", ".zip"]
 
 
@@ -106,6 +135,20 @@ def run(ctx):
     from pkgcore.scripts import pclean
     from pkgcore.package.errors import MetadataException
     from snakeoil.sequences import iflatten_instance
+    from snakeoil.cli import arghparse
+    from pkgcore.config import basics, central
+    from pkgcore.config.hint import ConfigHint
+    from pkgcore.util import parserestrict
+
+    class StandInDomain:
+        """the default domain of the scratch configuration: just the attributes pclean dist reads"""
+        pkgcore_config_type = ConfigHint(typename="domain")
+        setup = {}
+
+        def __init__(self):
+            self.__dict__.update(self.setup)
+
+    domain_section = basics.HardCodedConfigSection({"class": StandInDomain, "default": True})
 
     rng = ctx.rng
     scratch = tempfile.mkdtemp(prefix="verif-c46-")
@@ -164,31 +207,63 @@ def run(ctx):
                     if rng.random() < 0.6:
                         present.add(f"{n}-0.{rng.randint(1, 8)}{rng.choice(EXT)}")          # stale versions
                 present.update(f for fs in inst_flat for f in fs if rng.random() < 0.7)
-                present.update(rng.sample(["unrelated.zip", "notes.txt", "Foo-3.TAR.GZ", "foo_1.tar.gz", "foobar-1.tar.gz"], rng.randint(0, 3)))
+                present.update(rng.sample(STRANGERS, rng.randint(0, 4)))
                 files = [{"name": f, "age_days": rng.choice([0, 1, 10, 40, 400]), "size": rng.choice([0, 10, 1023, 1024, 5000])} for f in sorted(present)]
                 k = rng.random()
-                if k < 0.3:
+                if k < 0.25:
                     targets = []
-                elif k < 0.42:
+                elif k < 0.36:
                     # targets that may match no package at all: unknown names, versions nobody provides, foreign categories
                     p = rng.choice(pkgs)
                     targets = rng.sample(["cat/nonexistent", "=cat/" + p["name"] + "-9.9", "other/" + p["name"], "zz*", ">cat/" + p["name"] + "-50",
                                           "cat/" + p["name"] + ":7"], rng.choice([1, 1, 2]))
-                elif k < 0.7:
+                elif k < 0.58:
                     targets = [rng.choice(["cat/" + rng.choice(names), rng.choice(names), rng.choice(names)[:2] + "*", "cat/*"])]
+                elif k < 0.8:
+                    # several package names targeted at once
+                    targets = [rng.choice(["cat/", "", "*/"]) + n for n in rng.sample(names, rng.choice([2, 2, 3]))]
                 else:
                     p = rng.choice(pkgs)
                     targets = rng.sample(["=" + p["cpv"], "cat/" + rng.choice(names), "*/" + rng.choice(names)], 2)
-                excludes = None if rng.random() < 0.6 else [rng.choice(["cat/" + rng.choice(names), rng.choice(names)[:3] + "*", "=" + rng.choice(pkgs)["cpv"]])]
+
+                def pattern():
+                    return rng.choice(["cat/" + rng.choice(names), rng.choice(names)[:3] + "*", "=" + rng.choice(pkgs)["cpv"]])
+                # exclusion patterns come from -x/--exclude (comma separated, may be repeated) and/or the lines of a -X/--exclude-file
+                excludes, xfile = None, None
+                k = rng.random()
+                if k < 0.2:
+                    excludes = [pattern() for _ in range(rng.choice([1, 1, 2]))]
+                elif k < 0.3:
+                    xfile = [pattern() for _ in range(rng.choice([1, 2, 3]))]
+                elif k < 0.45:
+                    excludes = [pattern() for _ in range(rng.choice([1, 1, 2]))]
+                    xfile = [pattern() for _ in range(rng.choice([1, 2]))]
                 if targets and rng.random() < 0.08:
                     excludes = list(targets)              # the targets are excluded again: nothing is left to clean
                 o = {"installed": rng.random() < 0.35, "exists": rng.random() < 0.4, "fetch_restricted": rng.random() < 0.25,
                      "modified": rng.choice([None, None, None, None, "5d", "30d", "1y"]), "size": rng.choice([None, None, None, None, "1K", "11B", "4K"]),
                      "pretend": rng.random() < 0.05}
+                # ---- the command line
+                argv = ["dist"]
+                opt = [[rng.choice(["-I", "--installed"])] if o["installed"] else [], [rng.choice(["-E", "--exists"])] if o["exists"] else [],
+                       [rng.choice(["-f", "--fetch-restricted"])] if o["fetch_restricted"] else [], ["-p"] if o["pretend"] else [],
+                       [rng.choice(["-m", "--modified"]), o["modified"]] if o["modified"] else [], [rng.choice(["-s", "--size"]), o["size"]] if o["size"] else []]
+                xpath = os.path.join(scratch, f"exclude{ri}_{ci}")
+                if xfile is not None:
+                    with open(xpath, "w") as fh:
+                        fh.write("\n".join(xfile))
+                    opt.append([rng.choice(["-X", "--exclude-file"]), xpath])
+                if excludes is not None:
+                    # (given once: the option is snakeoil's "csv" action, for which a repeated option deliberately overrides the earlier one)
+                    opt.append([rng.choice(["-x", "--exclude"]), ",".join(excludes)])
+                rng.shuffle(opt)
+                front = rng.random() < 0.5
+                argv += ([] if front else targets) + [a for part in opt for a in part] + (targets if front else [])
                 scen = {"repo": [(p["cpv"], p["files"], p["fetch"]) + ((("unparsable SRC_URI: " + p["src_uri"]),) if p["broken"] else ()) for p in pkgs], "installed": installed, "files": files, "targets": targets,
-                        "excludes": excludes, "opts": o}
+                        "excludes": excludes, "exclude_file_lines": xfile, "argv": ["<exclude file>" if a == xpath else a for a in argv], "opts": o}
 
-                # ---- the real run
+                # ---- the real run: the real command line parser (option wiring, bound parse functions, final check) on a configuration whose
+                # default domain is a stand-in holding the scratch distdir, the scratch repository and the installed packages
                 distdir = os.path.join(scratch, f"dist{ri}_{ci}")
                 os.mkdir(distdir)
                 for f in files:
@@ -198,53 +273,67 @@ def run(ctx):
                     t = now - f["age_days"] * 86400 - 3600
                     os.utime(path, (t, t))
                     f["mtime"] = t
+                StandInDomain.setup = {"distdir": distdir, "source_repos": repo, "all_source_repos_raw": (),
+                                       "all_installed_repos": [types.SimpleNamespace(distfiles=x) for x in installed]}
 
                 def make_ns():
                     ns = types.SimpleNamespace()
-                    ns.domain = types.SimpleNamespace(distdir=distdir, source_repos=None,
-                                                      all_installed_repos=[types.SimpleNamespace(distfiles=x) for x in installed],
-                                                      all_source_repos_raw=())
-                    ns.repo = repo
-                    ns.targets = list(targets)
-                    ns.excludes = None if excludes is None else list(excludes)
-                    ns.exclude_file = None
-                    ns.pkgsets = None
-                    ns.restrict = []
+                    ns.domain = types.SimpleNamespace(**StandInDomain.setup)
+                    ns.repo = None
                     ns.file_filters = pclean.Filters()
-                    ns.pretend, ns.verbosity, ns.prog = o["pretend"], 0, "pclean"
+                    ns.exclude_installed = ns.exclude_exists = ns.exclude_fetch_restricted = False
+                    ns.exclude_restrict = None
                     return ns
                 try:
-                    ns = make_ns()
-                    ns.exclude_installed, ns.exclude_exists, ns.exclude_fetch_restricted = o["installed"], o["exists"], o["fetch_restricted"]
-                    ns.modified = None if o["modified"] is None else pclean.parse_time(o["modified"])
-                    ns.size = None if o["size"] is None else pclean.parse_size(o["size"])
-                    pclean._setup_shared_opts(ns)
-                    pclean._setup_file_opts(ns)
-                    pclean._setup_restrictions(ns)
-                    has_restrict, has_exclude = bool(ns.restrict), bool(ns.exclude_restrict)
-                    targeted = {p["cpv"]: bool(has_restrict and ns.restrict.match(real[p["cpv"]])) for p in pkgs}
-                    excluded = {p["cpv"]: bool(has_exclude and ns.exclude_restrict.match(real[p["cpv"]])) for p in pkgs}
-                    # oracle run: same restriction, every exclusion and filter off -> the files the patterns select
-                    ns0 = make_ns()
-                    ns0.restrict = ns.restrict
-                    ns0.exclude_restrict = None
-                    ns0.exclude_installed = ns0.exclude_exists = ns0.exclude_fetch_restricted = False
+                    # what the patterns mean, one pattern at a time (the parser combines them into restrictions)
+                    t_r = [parserestrict.parse_match(t) for t in targets]
+                    x_r = [parserestrict.parse_match(t) for t in (excludes or []) + (xfile or [])]
+                    has_restrict, has_exclude = bool(t_r or x_r), bool(x_r)
+                    excluded = {p["cpv"]: any(r.match(real[p["cpv"]]) for r in x_r) for p in pkgs}
+                    targeted = {p["cpv"]: has_restrict and not excluded[p["cpv"]] and (not t_r or any(r.match(real[p["cpv"]]) for r in t_r)) for p in pkgs}
+                    selected = ref_selected([(p["name"], [] if p["broken"] else p["files"]) for p in sorted(pkgs, key=lambda p: real[p["cpv"]]) if targeted[p["cpv"]]],
+                                            [f["name"] for f in files])
+                    if any(p["broken"] and targeted[p["cpv"]] for p in pkgs):
+                        selected = []           # a targeted package cannot be read: the run cannot get past it
+                    aborted, refused, ret, ns = False, False, 0, arghparse.Namespace()
+                    ns.config = central.CompatConfigManager(central.ConfigManager([{"default_domain": domain_section}], debug=True))
+                    old_stdout, old_stderr = sys.stdout, sys.stderr
+                    sys.stderr = io.StringIO()
                     try:
-                        pclean._dist_validate_args(None, ns0)
-                        selected = [os.path.basename(t) for _, t in ns0.remove]
+                        ns = pclean.argparser.parse_args(list(argv), namespace=ns)
                     except MetadataException:
-                        selected = []           # a targeted package cannot be read: the run under test cannot get past it either
-                    # the run under test; a MetadataException (unreadable package) ends the command before _remove
-                    aborted, ret = False, 0
-                    try:
-                        pclean._dist_validate_args(None, ns)
-                    except MetadataException:
-                        aborted = True
+                        aborted = True          # an unreadable package ends the command before _remove
+                    except SystemExit as e:
+                        refused = sys.stderr.getvalue().strip() or str(e.code)
+                    finally:
+                        sys.stderr = old_stderr
+                    if refused:
+                        ctx.mismatch(scen, f"pclean refused the command line: {refused}")
+                        continue
+                    thr_m, thr_s = getattr(ns, "modified", None), getattr(ns, "size", None)
+                    glue = None
                     if not aborted:
-                        old_stdout = sys.stdout
+                        r_t = {p["cpv"]: bool(ns.restrict and ns.restrict.match(real[p["cpv"]])) for p in pkgs}
+                        r_x = {p["cpv"]: bool(ns.exclude_restrict and ns.exclude_restrict.match(real[p["cpv"]])) for p in pkgs}
+                        if (bool(ns.restrict), bool(ns.exclude_restrict), r_t, r_x) != (has_restrict, has_exclude, targeted, excluded):
+                            glue = (f"the restrictions built from the command line target {sorted(k for k, v in r_t.items() if v)} and exclude "
+                                    f"{sorted(k for k, v in r_x.items() if v)}; pattern by pattern the targets match {sorted(k for k, v in targeted.items() if v)} "
+                                    f"and the exclusions {sorted(k for k, v in excluded.items() if v)}")
+                        # cross-check of the reference selection: the real final check on the same restriction, every exclusion and filter off
+                        if ns.restrict and any(targeted.values()):
+                            ns0 = make_ns()
+                            ns0.restrict = ns.restrict
+                            try:
+                                pclean._dist_validate_args(None, ns0)
+                                sel0 = sorted(os.path.basename(t) for _, t in ns0.remove)
+                                if sel0 != selected and glue is None:
+                                    glue = (f"the file-name patterns built from all targeted packages together select {sel0}; one targeted package name "
+                                            f"at a time they select {selected}")
+                            except MetadataException:
+                                pass
                         sys.stdout = TtyStdout(old_stdout)
                         try:
-                            ret = pclean._remove(ns, FakeOut(), FakeOut())
+                            ret = ns.main_func(ns, FakeOut(), FakeOut())
                         finally:
                             sys.stdout = old_stdout
                     left = sorted(os.listdir(distdir))
@@ -253,8 +342,10 @@ def run(ctx):
                     continue
                 finally:
                     shutil.rmtree(distdir, ignore_errors=True)
+                    if xfile is not None:
+                        os.unlink(xpath)
                 removed = sorted(set(f["name"] for f in files) - set(left))
-                cases.append((scen, selected, has_restrict, removed, left, ret, aborted))
+                cases.append((scen, selected, has_restrict, removed, left, ret, aborted, glue))
                 reqs.append({"cmd": "c46.clean",
                              "files": [{"name": f["name"], "mtime": f["mtime"], "size": f["size"]} for f in files],
                              "selected": selected, "installed": inst_flat,
@@ -262,9 +353,9 @@ def run(ctx):
                                        "broken": bool(p["broken"])} for p in pkgs],
                              "opts": {"installed": o["installed"], "exists": o["exists"], "fetch_restricted": o["fetch_restricted"],
                                       "has_restrict": has_restrict, "has_exclude": has_exclude,
-                                      "modified": None if ns.modified is None else math.ceil(ns.modified),
-                                      "size": ns.size}})
-            for (scen, selected, has_restrict, removed, left, ret, aborted), req, m in zip(cases, reqs, ctx.model(reqs)):
+                                      "modified": None if thr_m is None else math.ceil(thr_m),
+                                      "size": thr_s}})
+            for (scen, selected, has_restrict, removed, left, ret, aborted, glue), req, m in zip(cases, reqs, ctx.model(reqs)):
                 o = scen["opts"]
                 if m == "bad-op":
                     ctx.mismatch(scen, "driver rejected the request")
@@ -287,8 +378,9 @@ def run(ctx):
                 ctx.count("targets_" + ("none" if not has_restrict else "match_some" if any_targeted else "match_nothing"))
                 kept_needed = sel & needed & set(fileinfo)
                 ctx.case(scen, bool(removed) and bool(kept_needed), key=str(scen))
-                ctx.count("opts_" + "".join(c for c, f in zip("IEfTXms", [o["installed"], o["exists"], o["fetch_restricted"], scen["targets"], scen["excludes"],
-                                                                              o["modified"], o["size"]]) if f))
+                ctx.count("opts_" + "".join(c for c, f in zip("IEfTxXms", [o["installed"], o["exists"], o["fetch_restricted"], scen["targets"], scen["excludes"],
+                                                                               scen["exclude_file_lines"], o["modified"], o["size"]]) if f))
+                ctx.count("targeted_names_%d" % min(3, len({c.rsplit("-", 1)[0] for c, p in zip((x[0] for x in scen["repo"]), req["repo"]) if p["targeted"]})))
                 ctx.count("removed_%d" % min(len(removed), 5))
                 if aborted:
                     ctx.count("stopped_by_unreadable_metadata")
@@ -313,6 +405,8 @@ def run(ctx):
                 unf = [f for f in removed if (thr_m is not None and not fileinfo[f]["mtime"] < thr_m) or (thr_s is not None and not fileinfo[f]["size"] < thr_s)]
                 if unf:
                     ctx.violation(scen, f"removed files that do not pass the file filters: {unf}")
+                if glue:
+                    ctx.mismatch(scen, glue)
                 if aborted != m["aborted"] or removed != m["removed"] or left != sorted(m["left"]):
                     ctx.mismatch(scen, f"pclean {'stopped with MetadataException' if aborted else 'ran'}, removed {removed} (left {left}); the Lean model "
                                        f"{'stops' if m['aborted'] else 'runs'}, removes {m['removed']} (left {sorted(m['left'])})")
@@ -326,5 +420,5 @@ LEVEL_TEXT = ("Kernel-checked Lean 4 theorems about a model of the set algebra o
               "package (--fetch-restricted) or by an excluded package is removed; what is left is exactly the rest; a repository package whose metadata cannot be read stops the command before anything is removed whenever one "
               "of its loops looks at it, and is never read otherwise, so needed files survive in every repository (needed_files_survive). Target selection and restriction "
               "matching are parameters, instantiated from the real code; the real functions run on real scratch repositories and a real scratch distdir.")
-LEVEL_NOTE = ("Trusted: Lean kernel; target file-name guessing and restriction matching as parameters (taken from the real code each run); the argparse "
-              "wiring is bypassed with a hand-made namespace; os primitives.")
+LEVEL_NOTE = ("Trusted: Lean kernel; per-pattern restriction matching and the per-name file pattern as parameters (the real code's combination of them is "
+              "compared with a pattern-by-pattern / name-by-name reference on every run); a stand-in domain object under the real argument parser; os primitives.")
